@@ -52,6 +52,10 @@ def run(ctx):
     siblings_agree(ctx, "T4-siblings-agree", "<num_rational::Ratio<num_bigint::BigInt> as geometry::traits::Entry>::clear_col",
                    "geometry::modular_solver::<impl geometry::traits::Entry for geometry::prime_residue_classes::PrimeResidueClass<P>>::clear_col", "field clear_col ~ field clear_col")
     i64_row_step(ctx, g)
+    ctx.clauses.append("gcdx is extended Euclid: r*A + s*B = +-gcd, t*A + u*B = 0, r*u - s*t = +-1 for every input (loop invariant decided on sampled states)")
+    gx = ctx.body("geometry::traits::gcdx")
+    ctx.scan([gx])
+    euclid_contract(ctx, "T7-euclid-contract", gx, g)
     padic_steps(ctx, g)
     residues(ctx)
     modulus(ctx)
